@@ -190,10 +190,12 @@ impl IoSched {
         });
         self.counters.len() - 1
     }
+    /// Bytes moved in this operation on the file of this name - or, when no such file was ever opened, on any file of
+    /// the simulated disk (the code may have written to a temporary file that it renamed into place).
     pub fn bytes_so_far(&mut self, role: &str, dir: Dir) -> u64 {
-        let r = self.role_id(role);
-        let c = self.counter(r, dir);
-        self.counters[c].bytes
+        let direct: Vec<u16> = (0..self.roles.len() as u16).filter(|i| role_matches(&self.roles[*i as usize], role)).collect();
+        let ids: Vec<u16> = if direct.is_empty() { (0..self.roles.len() as u16).collect() } else { direct };
+        self.counters.iter().filter(|c| c.dir == dir && ids.contains(&c.role)).map(|c| c.bytes).sum()
     }
 
     /// Decide the fate of one transfer call that wants `want` bytes: Ok(n) = let it move at most n bytes,
@@ -223,7 +225,7 @@ impl IoSched {
         let op = self.op;
         for i in 0..self.faults.len() {
             let f = &self.faults[i];
-            if (f.op != op && f.op != ANY_OP) || f.dir != dir || !role_matches(&self.roles[role as usize], &f.role) {
+            if (f.op != op && f.op != ANY_OP) || f.dir != dir || !self.fault_applies(role, &self.faults[i]) {
                 continue;
             }
             let (call, pos) = if f.op == ANY_OP { (call_tot, pos_tot) } else { (call_op, pos_op) };
@@ -332,6 +334,17 @@ impl IoSched {
         self.events.push(Ev { op: self.op, role, kind: dir_kind(dir), a: want as u64, b: got });
     }
 
+    /// A planned fault applies to the file it names (or whose name contains that name). Write-side and open faults
+    /// also apply to *any* file of the simulated disk as long as no file of the planned name has been opened in
+    /// this run: code that writes somewhere else first and renames into place meets the same disk.
+    fn fault_applies(&self, role: u16, f: &Fault) -> bool {
+        let file = &self.roles[role as usize];
+        if role_matches(file, &f.role) {
+            return true;
+        }
+        (f.dir == Dir::W || f.dir == Dir::Open) && !self.roles.iter().any(|r| role_matches(r, &f.role))
+    }
+
     pub fn open_fault(&mut self, role: u16) -> Option<i32> {
         let op = self.op;
         if self.quiet {
@@ -340,7 +353,7 @@ impl IoSched {
         }
         for i in 0..self.faults.len() {
             let f = &self.faults[i];
-            if (f.op == op || f.op == ANY_OP) && f.dir == Dir::Open && role_matches(&self.roles[role as usize], &f.role) {
+            if (f.op == op || f.op == ANY_OP) && f.dir == Dir::Open && self.fault_applies(role, &self.faults[i]) {
                 if let Act::FailOpen(e) = f.act {
                     if self.fired[i] == 0 {
                         self.fired_at.push(("open_fail", op, 0));
